@@ -43,7 +43,7 @@ _BUILTINS = {"len": len, "int": int, "str": str, "min": min, "max": max, "abs": 
 
 
 class Evaluator:
-    LITERAL_METHODS = {"get", "startswith", "endswith", "lower", "upper", "strip", "keys", "values", "items", "index", "count", "__contains__"}
+    LITERAL_METHODS = {"get", "startswith", "endswith", "lower", "upper", "strip", "keys", "values", "items", "index", "count", "__contains__", "format", "join"}
 
     def __init__(self, call: Optional[Callable] = None, max_steps: int = 2000, consts: Optional[Callable] = None):
         """``consts(dotted_name)`` -> AST of a module/class-level literal definition (or None); it is folded with
